@@ -23,13 +23,13 @@ VARIABLES units, tpeek      \* tpeek: the transport peeks one byte (inspector li
 tvars == <<vars, units, tpeek, l>>
 
 TraceInit == /\ l = 1 /\ frames = <<>> /\ units = <<>> /\ fed = 0 /\ cons = 0 /\ out = <<>> /\ pc = "read" /\ cuts = <<>> /\ pre = "done"
-             /\ held = 0 /\ lost = 0 /\ pauses = <<>> /\ tpeek = 0
+             /\ held = 0 /\ lost = 0 /\ pauses = <<>> /\ tpeek = 0 /\ prior = 0 /\ cap = 0
 
 TRun == /\ IsEvent("run")
         /\ frames' = Ev.lens /\ units' = Ev.units
         /\ tpeek' = IF Has(Ev, "peek") THEN Ev.peek ELSE 0
         /\ fed' = 0 /\ cons' = 0 /\ out' = <<>> /\ pc' = "read" /\ cuts' = <<>> /\ pre' = pre
-        /\ held' = 0 /\ lost' = 0 /\ pauses' = <<>>
+        /\ held' = 0 /\ lost' = 0 /\ pauses' = <<>> /\ prior' = (IF Has(Ev, "prior") THEN Ev.prior ELSE 0) /\ cap' = cap
 
 Bogus == [start |-> 0 - 1, len |-> 0]
 
@@ -54,7 +54,7 @@ Step(n, exact) ==
             /\ out' = [i \in 1..k1 |-> Range(frames, i)]      \* resynchronise: judge every step on its own
             /\ cons' = Off(units, Complete(units, f2))
             /\ pc' = "read" /\ cuts' = <<>>
-            /\ UNCHANGED <<frames, units, tpeek, pre, held, lost>>
+            /\ UNCHANGED <<frames, units, tpeek, pre, held, lost, prior, cap>>
 
 TFeed == /\ IsEvent("feed")
          /\ Ev.n >= 1 /\ fed + Ev.n <= Total(frames)              \* the driver never feeds beyond the stream
